@@ -52,13 +52,14 @@ type Sched struct {
 	pend    map[Actor]*Pending
 	hbOf    map[uint64]Actor
 	hbCount map[int]int
+	afterFree map[uint64]int
 	free    bool
 	gen     int // bumped on every state change, for waiters
 	Panics  int64 // backend panics converted into errors
 }
 
 func New(dirPath, hbPath string) *Sched {
-	s := &Sched{DirPath: dirPath, HbPath: hbPath, pend: map[Actor]*Pending{}, hbOf: map[uint64]Actor{}, hbCount: map[int]int{}}
+	s := &Sched{DirPath: dirPath, HbPath: hbPath, pend: map[Actor]*Pending{}, hbOf: map[uint64]Actor{}, hbCount: map[int]int{}, afterFree: map[uint64]int{}}
 	s.cond = sync.NewCond(&s.mu)
 	return s
 }
@@ -177,6 +178,16 @@ func (s *Sched) enter(c int, op, path string, n int) *Pending {
 	}
 	s.mu.Lock()
 	if s.free {
+		// after the end of the scenario a heartbeat writer has at most one iteration left (its context is cancelled);
+		// one that keeps coming back (a writer that ignores its context) is parked for good instead of spinning
+		if class == "hb" && (op == "OpenFile" || op == "Chtimes") {
+			g := goid()
+			s.afterFree[g]++
+			if s.afterFree[g] > 6 {
+				s.mu.Unlock()
+				select {}
+			}
+		}
 		s.mu.Unlock()
 		return nil
 	}
